@@ -503,3 +503,47 @@ package cluster_info
 // those: ListPodByIndex returns non-nil *v1.Pod elements (assumed, data_lister), so the unchecked `pod, ok :=
 // rawPod.(*v1.Pod)` followed by getPodInfo(pod) does not dereference nil; GetPriorityClassByName returns a non-nil
 // class when err == nil (assumed); isPodGroupUpForScheduler needs c.nodePoolParams != nil (ciWF, established by New).
+
+// ---- C04: the inter-pod (anti-)affinity index follows the pods of the node --------------------------------------------
+// C04 "inter-pod affinity/anti-affinity ... hold for every bound pod": the upstream InterPodAffinity PreFilter reads the
+// cluster index (nodesWithPodAffinity / nodesWithPodAntiAffinity) that UpdateNodeAffinity refreshes from the node's
+// CURRENT pod list. So after AddPod / a successful RemovePod the index must have been refreshed AFTER the pod list
+// changed. Ghost versions make the order observable: the k8s NodeInfo bumps podListVersion on every AddPod/RemovePod,
+// UpdateNodeAffinity records the version it has seen.
+//@ import k8sframework "k8s.io/kubernetes/pkg/scheduler/framework"
+//@ ghost podListVersion(n *k8sframework.NodeInfo) int
+//@ ghost indexedVersion(n *k8sframework.NodeInfo) int
+//@ func (*k8s.io/kubernetes/pkg/scheduler/framework.NodeInfo).AddPod
+//@   props C04
+//@   trusted
+//@   note external (k8s scheduler framework): appends the pod to the node's pod lists; assumed to touch nothing the contracts mention; the ghost version counts the changes of the pod list
+//@   modifies podListVersion(n)
+//@   ensures podListVersion(n) == old(podListVersion(n)) + 1
+//@ end
+//@ func (*k8s.io/kubernetes/pkg/scheduler/framework.NodeInfo).RemovePod
+//@   props C04
+//@   trusted
+//@   note external (k8s scheduler framework): removes the pod from the node's pod lists or returns an error and changes nothing
+//@   modifies podListVersion(n)
+//@   ensures ite(result == nil, podListVersion(n) == old(podListVersion(n)) + 1, podListVersion(n) == old(podListVersion(n)))
+//@ end
+//@ import pod_affinity "github.com/NVIDIA/KAI-scheduler/pkg/scheduler/api/pod_affinity"
+//@ func github.com/NVIDIA/KAI-scheduler/pkg/scheduler/api/pod_affinity.ClusterPodAffinityInfo.UpdateNodeAffinity
+//@   modifies indexedVersion(unbox(podAffinityInfo, "*K8sNodePodAffinityInfo").NodeInfo)
+//@   ensures [assumed] typeis(podAffinityInfo, "*K8sNodePodAffinityInfo") ==> indexedVersion(unbox(podAffinityInfo, "*K8sNodePodAffinityInfo").NodeInfo) == podListVersion(unbox(podAffinityInfo, "*K8sNodePodAffinityInfo").NodeInfo)
+//@   note assumed (interface pod_affinity.ClusterPodAffinityInfo, implemented by the cache's K8sClusterPodAffinityInfo): re-reads HasPodsWithPodAffinity / HasPodsWithPodAntiAffinity of the given node and updates the two node-name sets; ghost: the index now reflects the pod list as it is at the call
+//@ end
+//@ func (*K8sNodePodAffinityInfo).AddPod
+//@   props C04
+//@   requires ni != nil && ni.NodeInfo != nil && ni.clusterPodAffinityInfo != nil
+//@   modifies podListVersion(ni.NodeInfo), indexedVersion(ni.NodeInfo)
+//@   ensures [podListChanged] podListVersion(ni.NodeInfo) == old(podListVersion(ni.NodeInfo)) + 1
+//@   ensures [indexRefreshedAfterThePodListChanged] indexedVersion(ni.NodeInfo) == podListVersion(ni.NodeInfo)
+//@ end
+//@ func (*K8sNodePodAffinityInfo).RemovePod
+//@   props C04
+//@   requires ni != nil && ni.NodeInfo != nil && ni.clusterPodAffinityInfo != nil
+//@   modifies podListVersion(ni.NodeInfo), indexedVersion(ni.NodeInfo)
+//@   ensures [indexRefreshedAfterThePodListChanged] result == nil ==> indexedVersion(ni.NodeInfo) == podListVersion(ni.NodeInfo)
+//@   ensures [failureChangesNothing] result != nil ==> podListVersion(ni.NodeInfo) == old(podListVersion(ni.NodeInfo)) && indexedVersion(ni.NodeInfo) == old(indexedVersion(ni.NodeInfo))
+//@ end
